@@ -116,11 +116,15 @@ def run_audit(pid):
     return rc == 0, res, out
 
 
+_ERRKIND = re.compile(r'ERR:[A-Za-z0-9_:]+')
+
+
 def canon_real(s):
+    """verdict view of a result line: error kinds are not compared (also inside per-item lists `ERR:Kind`)"""
     s = s.strip()
     if s.startswith('ERR'):
         return 'ERR'
-    return s
+    return _ERRKIND.sub('ERR', s)
 
 
 def run_three_way(ops, tag, jobs=None, want_spec=True, want_impl=True, timeout=3600):
